@@ -24,6 +24,8 @@ func init() {
 }
 
 func runC13(c *Ctx) {
+	c.Rule("C13.R14", "the provider list is an ordered image of the configured tls contexts", 3)
+	defer c13ProvidersInConfigOrder(c)
 	c.Rule("C13.R13", "trust anchors come only from the configured CA: no certificate pool is written except a freshly created one", 2)
 	defer c13TrustAnchorsOnlyFromConfig(c)
 	c.Rule("C13.R12", "certificate validity is checked against a clock read made during the handshake", 3)
